@@ -114,6 +114,7 @@ func runSLCase(p *sut.Proc, sc slCase, serverPub []byte) (out slOutcome) {
 		}
 	}
 	var issued []uint32
+	var tBeforeFinalIssued, tFinalReceived time.Time
 	var final *hagallpb.SignedLatencyResponse
 	restarted := false
 	for round := 1; final == nil; round++ {
@@ -134,12 +135,24 @@ func runSLCase(p *sut.Proc, sc slCase, serverPub []byte) (out slOutcome) {
 		}
 		if isFinal(ev) {
 			final = ev.M.(*hagallpb.SignedLatencyResponse)
+			tFinalReceived = time.Now()
 			break
 		}
 		id := ev.M.(*hagallpb.Response).RequestId
 		issued = append(issued, id)
 		n := len(issued)
 		switch {
+		case sc.Behave == "slow-middle" && n == int(sc.N)-1:
+			time.Sleep(150 * time.Millisecond)
+			tBeforeFinalIssued = time.Now()
+		case sc.Behave == "wrap-straddle" && n == int(sc.N)-1:
+			// the server derives ping ids from the low 32 bits of its clock in
+			// nanoseconds: wait until they have wrapped, so that the final
+			// ping's id is smaller than the earlier ones
+			const wrap = int64(1) << 32
+			left := wrap - time.Now().UnixNano()%wrap
+			time.Sleep(time.Duration(left) + 3*time.Millisecond)
+			tBeforeFinalIssued = time.Now()
 		case sc.Behave == "delay-last" && n == int(sc.N):
 			time.Sleep(slDelay)
 		case sc.Behave == "delay-first" && n == 1:
@@ -214,6 +227,16 @@ func runSLCase(p *sut.Proc, sc slCase, serverPub []byte) (out slOutcome) {
 		out.findings = append(out.findings, c18f("response/last-is-not-the-final-round", "delay-last",
 			"%s: the client delayed only its answer to the final round by %v, so the final round's latency is at least %v us, but last=%v us (max=%v)", sc, slDelay, delayUS, data.Last, data.Max))
 	}
+	if (sc.Behave == "slow-middle" || sc.Behave == "wrap-straddle") && !tBeforeFinalIssued.IsZero() {
+		// the final round was issued after the client sent its previous answer
+		// and was over before the client received the response: its latency
+		// as measured by the server is nested in that interval
+		bound := float32(tFinalReceived.Sub(tBeforeFinalIssued).Microseconds() + 1)
+		if data.Last > bound {
+			out.findings = append(out.findings, c18f("response/last-is-not-the-final-round", sc.Behave,
+				"%s: the final round was answered at once and lies within an interval of %v us measured by the client, but last=%v us (the round before it was delayed; max=%v)", sc, bound, data.Last, data.Max))
+		}
+	}
 	if (sc.Behave == "delay-first" || sc.Behave == "delay-last") && data.Max < delayUS {
 		out.findings = append(out.findings, c18f("response/max-too-small", trig, "%s: one round was delayed by %v but max=%v us", sc, slDelay, data.Max))
 	}
@@ -270,11 +293,15 @@ func partSignedLatency(c *check.Ctx, a *acc) {
 			cases = append(cases,
 				slCase{N: n, Wallet: "0xW", Behave: "delay-last"},
 				slCase{N: n, Wallet: "0xW", Behave: "delay-first"},
+				slCase{N: n, Wallet: "0xW", Behave: "slow-middle"},
 				slCase{N: n, Wallet: "0xW", Behave: "duplicate", DupRound: 1 + i%int(n-1)},
 				slCase{N: n, Wallet: "0xW", Behave: "unknown"},
 				slCase{N: n, Wallet: "0xW", Behave: "replay-after"},
 				slCase{N: n, Wallet: "0xW", Behave: "restart"})
 		}
+	}
+	for i := 0; i < c.Pick(2, 6); i++ {
+		cases = append(cases, slCase{N: uint32(3 + i), Wallet: "0xW", Behave: "wrap-straddle"})
 	}
 	var mu sync.Mutex
 	done, completed, refused := 0, 0, 0
@@ -314,7 +341,7 @@ func partSignedLatency(c *check.Ctx, a *acc) {
 	c.Coverage["signed_latency_cases"] = done
 	c.Coverage["measurements_completed_and_fully_checked"] = completed
 	c.Coverage["requests_refused_and_checked"] = refused
-	a.add(done, completed+refused, "C18 scripts: iteration counts 0..60 and extremes, wallet strings, and misbehaving clients (answer an id twice, unknown id, replay after completion, restart, delayed first / final round) against the real handler; signature recovered independently (x/crypto Keccak-256 + pure-Go decred secp256k1) against the server wallet key; a case is non-trivial when a measurement completed and all data clauses were checked or the request was refused and the refusal checked", samples...)
+	a.add(done, completed+refused, "C18 scripts: iteration counts 0..60 and extremes, wallet strings, and misbehaving clients (answer an id twice, unknown id, replay after completion, restart, delayed first / final round, a slow round before a fast final one incl. one that straddles the wrap of the server's 32-bit nanosecond ping ids) against the real handler; signature recovered independently (x/crypto Keccak-256 + pure-Go decred secp256k1) against the server wallet key; a case is non-trivial when a measurement completed and all data clauses were checked or the request was refused and the refusal checked", samples...)
 }
 
 func init() {
